@@ -167,15 +167,22 @@ pub fn e1_spec(id: &str, tier: &str) -> Option<Spec> {
             id: "C07",
             programs: {
                 let mut v = progs::churn_struct_set();
+                if quick {
+                    // the largest alphabet: one operation less in the quick tier
+                    for p in v.iter_mut().filter(|p| p.name.contains("colliding")) {
+                        p.name = format!("shallow-{}", p.name);
+                    }
+                }
                 v.push(progs::intern_prog(1));
-                v.push(progs::intern_prog(2));
                 if !quick {
+                    // (revisions = 2 and 3 in the thorough tier; C09 quick explores them too)
+                    v.push(progs::intern_prog(2));
                     v.push(progs::intern_prog(3));
                 }
                 v
             },
             depth: if quick { 6 } else { 7 },
-            alphabet: Box::new(|p: &ql::ex::Program| if p.name.starts_with("churn") { progs::churn_struct_alphabet(p) } else { progs::intern_alphabet_full(p) }),
+            alphabet: Box::new(|p: &ql::ex::Program| if p.name.contains("churn") { progs::churn_struct_alphabet(p) } else { progs::intern_alphabet_full(p) }),
             flags: Flags { values: true, alias: true, justify: true, fresh_end: true, ..Flags::default() },
             rule: RULE_E1,
             cap_s: cap,
